@@ -133,6 +133,14 @@ func ConstInt(v ssa.Value) (int64, bool) {
 	return 0, false
 }
 
+// Int64Of converts a constant value to int64 if it is an integer constant (constant.Int64Val panics on other kinds).
+func Int64Of(v constant.Value) (int64, bool) {
+	if v == nil || v.Kind() != constant.Int {
+		return 0, false
+	}
+	return constant.Int64Val(v)
+}
+
 // IsNilConst reports whether v is the nil constant.
 func IsNilConst(v ssa.Value) bool {
 	c, ok := v.(*ssa.Const)
@@ -1375,6 +1383,28 @@ func DerivesFrom(root, target ssa.Value) bool {
 			}
 		case *ssa.FieldAddr:
 			return walk(x.X)
+		case *ssa.Slice:
+			return walk(x.X)
+		case *ssa.Alloc:
+			// the packed operands of a variadic call (new [n]T filled element by element), or a local aggregate
+			if x.Referrers() != nil {
+				for _, r := range *x.Referrers() {
+					switch a := r.(type) {
+					case *ssa.IndexAddr:
+						if a.Referrers() != nil {
+							for _, rr := range *a.Referrers() {
+								if st, ok := rr.(*ssa.Store); ok && st.Addr == ssa.Value(a) && walk(st.Val) {
+									return true
+								}
+							}
+						}
+					case *ssa.Store:
+						if a.Addr == ssa.Value(x) && walk(a.Val) {
+							return true
+						}
+					}
+				}
+			}
 		}
 		return false
 	}
